@@ -75,6 +75,7 @@ type Request struct {
 	Query   [][2]string       `json:"query,omitempty"` // ordered key/value pairs (already unescaped)
 	Body    json.RawMessage   `json:"body,omitempty"`  // JSON text or absent
 	Headers map[string]string `json:"headers,omitempty"`
+	RawBody string            `json:"raw_body,omitempty"` // sent instead of Body when set: text that is not one JSON document
 }
 
 // Style selects among layouts that must not change meaning.
